@@ -151,13 +151,19 @@ def run_translator() -> dict:
                            ('pybody', 'PyBodies.lean')):
         if (VERIF / 'translator' / f'{modname}.py').exists():
             mod = importlib.import_module(f'translator.{modname}')
+            sub = {}
             try:
-                out.update(mod.generate(REPO, gdir))
+                sub = dict(mod.generate(REPO, gdir))
             except Exception as e:  # noqa
                 if not (gdir / fname).exists():
                     raise
                 failed[modname] = f'{type(e).__name__}: {e}'
-            if (gdir / fname).exists():
+            # a generator may report per block (same convention as tables.generate): merged, never overwriting
+            sub_failed, sub_names = sub.pop('_failed', None) or {}, sub.pop('_names', None) or {}
+            failed.update(sub_failed)
+            names.update(sub_names)
+            out.update(sub)
+            if (gdir / fname).exists() and not sub_names:
                 names[modname] = tables.defined_names((gdir / fname).read_text())
     return out
 
